@@ -609,7 +609,7 @@ def sqlite_two_loops(scratch: str, trigs, setup, k: int, mode: str = "loop"):
         raised = f"{type(ex).__name__}"
     finally:
         st.sqlite_conn = real
-    if inj.fired is None:
+    if inj.fired in (None, "excluded"):     # never reached / blocked by A's lock or transaction: B runs after A
         b_action()
     if mode == "report":
         a.trg.trigger_loop_iteration()
@@ -671,7 +671,7 @@ def mem_two_loops(scratch: str, trigs, setup, k: int, mode: str = "loop"):
         raised = f"{type(ex).__name__}"
     finally:
         sys.settrace(None)
-    if inj.fired is None:
+    if inj.fired in (None, "excluded"):     # never reached / blocked by A's lock or transaction: B runs after A
         b_action()
     if mode == "report":
         trg.trigger_loop_iteration()
